@@ -9,6 +9,7 @@
      "Raised" the extractor raised (exc = class name): never accepted
    (hdr.kind = "msg") and, for fixtures that have no abstract message (hdr.kind = "fixture", hdr.m a dummy):
      "Fixture" p = field-presence flags
+   obs also carries nunits / utype / full / joinok (units and full text, the e-mail clause of C03).
    TLC decides with Mail!Accept (= Expected(m) modulo the DON'T-CAREs of Mail.tla).          *)
 EXTENDS Mail, Json, IOUtils, TLCExt
 
